@@ -161,7 +161,7 @@ def main():
     violations, known_hits = [], []
     for f in confirmed:
         fn = f["diag"].get("fn") or "?"
-        k = next((k for k in known if k["prop"] == prop and k["label"] == f["label"] and (k["fn"] == fn or k["fn"] == "*")), None)
+        k = next((k for k in known if k["prop"] == prop and k["label"] == f["label"] and (k["fn"] == fn or k["fn"] == "*" or k["fn"] == f"{fn}@{f['fs']}")), None)
         if k:
             known_hits.append((f, k))
         else:
